@@ -22,7 +22,7 @@ FAMILIES = {
     "nuget": {"files": ["Nuget.v", "NugetProofs.v"],
               "theorems": _thms("nuget", ["nuget_trans_all_strings", "nuget_eq_equiv_all_strings"])},
     "cran": {"files": ["Cran.v", "CranProofs.v"],
-             "theorems": ["cran_total_refuted", "cran_total_on_valid", "cran_struct_total_on_valid"] + _thms("cran")[1:]},
+             "theorems": ["cran_struct_total", "cran_ok_on_valid"] + _thms("cran")},
     "rubygems": {"files": ["Rubygems.v", "RubygemsProofs.v"],
                  "theorems": _thms("rubygems", ["rubygems_trans_all_strings", "rubygems_eq_equiv_all_strings"])},
     "debian": {"files": ["Debian.v", "DebianProofs.v"], "theorems": _thms("debian", ["debian_parse_valid"])},
@@ -31,7 +31,7 @@ FAMILIES = {
     "pypi": {"files": ["Pypi.v", "PypiProofs.v"],
              "theorems": ["pypi_total", "pypi_antisym", "pypi_refl", "pypi_refl_refuted", "pypi_trans_on_valid", "pypi_eq_equiv"]},
     "packagist": {"files": ["Packagist.v", "PackagistProofs.v"],
-                  "theorems": ["packagist_total", "packagist_antisym", "packagist_refl", "packagist_trans_refuted",
+                  "theorems": ["packagist_total", "packagist_antisym", "packagist_refl", "packagist_hash_eq_not_transitive_refuted",
                                "packagist_trans_on_D", "packagist_eq_equiv_on_D"]},
     "maven": {"files": ["Maven.v", "MavenProofs.v"],
               "theorems": ["maven_total", "maven_struct_total", "maven_refl", "maven_struct_refl", "maven_eq_symmetric",
@@ -67,12 +67,12 @@ META = {
                  "over hand-written Gallina models of each ecosystem's parser and comparator + vm_compute correspondence "
                  "against semantic.Parse / Version.CompareStr + order-law oracle on the implementation's own results",
     "level_text": "Modelled ecosystems: %s. Props_C07.v proves for the model of Parse+CompareStr of each: E_total (never Panic: all byte "
-                  "strings for the semver family, NuGet, RubyGems, Debian/Ubuntu, Red Hat, Maven; all parser-buildable structures for "
-                  "PyPI/Packagist/Alpine; REFUTED for CRAN: cran_total_refuted with witness \"\" vs \"1.0\", proved on numeric "
-                  "components cran_total_on_valid), E_antisym and E_refl (all strings where the parser is modelled, all structures / "
+                  "strings for the semver family, NuGet, CRAN (since fix 38e33aec: ErrInvalidVersion instead of the nil dereference), RubyGems, "
+                  "Debian/Ubuntu, Red Hat, Maven; all parser-buildable structures for PyPI/Packagist/Alpine), E_antisym and E_refl (all strings where the parser is modelled, all structures / "
                   "all well-formed structures otherwise), E_trans_on_valid and E_eq_equiv on a boolean validity predicate (for semver "
                   "family, NuGet, RubyGems, Red Hat every string is valid: total preorder on ALL strings). Refuted with _on_D companions: "
-                  "alpine_eq_not_transitive_refuted / alpine_trans_on_D, packagist_trans_refuted / packagist_trans_on_D, "
+                  "alpine_eq_not_transitive_refuted / alpine_trans_on_D, packagist_hash_eq_not_transitive_refuted / packagist_trans_on_D "
+                  "(numbers of any size since fix cefe0305), "
                   "maven_trans_refuted (two cycles) / maven_trans_on_D (relational domain). E_agrees_canonical are labelled vm_compute "
                   "tests on published ordering chains. The models are tied to the code on every run: parse model = structure dumped "
                   "by the hook, compare model = observed result on all pairs of a 40-string pool per ecosystem (x shards) and further "
@@ -105,7 +105,7 @@ def load_side(side):
             summary = d
             continue
         key = (d["eco"], d["shard"])
-        sh = shards.setdefault(key, {"strs": [], "matrix": {}, "extra": [], "meta": None})
+        sh = shards.setdefault(key, {"strs": [], "matrix": {}, "extra": [], "rules": [], "meta": None})
         if t == "str":
             sh["strs"].append(d)
         elif t == "pair":
@@ -113,6 +113,8 @@ def load_side(side):
                 sh["matrix"][(d["i"], d["j"])] = d
             else:
                 sh["extra"].append(d)
+        elif t == "rule":
+            sh["rules"].append(d)
         elif t == "shard":
             sh["meta"] = d
     return shards, summary
@@ -124,7 +126,7 @@ def case_of(sh, idxs):
 
 
 NAMES = ["corr_parse_bad", "corr_matrix_bad", "corr_pairs_bad", "spec_parse_total_bad", "spec_refl_bad",
-         "spec_antisym_total_bad", "spec_pairs_bad", "spec_trans_bad", "in_domain_count"]
+         "spec_antisym_total_bad", "spec_pairs_bad", "spec_trans_bad", "spec_rules_bad", "in_domain_count"]
 
 
 def run_coq_file(d, name):
@@ -194,6 +196,50 @@ def replay_known(ctx, binp, d, props_src):
     return out_entries
 
 
+def fixed_findings(ctx):
+    """Entries with status "fixed": their witnesses form the regression corpus (runs first, judged at full strength)."""
+    out = []
+    for f in sorted(glob.glob(os.path.join(vlib.VERIF, "KNOWN_FINDINGS.d", "C07*.json"))):
+        k = json.load(open(f))
+        out += [e for e in (k if isinstance(k, list) else k.get("findings", [])) if e.get("property") == "C07" and e.get("status") == "fixed"]
+    return out
+
+
+def run_regressions(ctx, binp, d):
+    """Replay every fixed finding's witness on implementation AND model: the old misbehaviour must be gone
+    (no domain restriction, no KNOWN-FINDING line) and model = implementation on the witness."""
+    res = []
+    for e in fixed_findings(ctx):
+        if e.get("family") and e["family"] not in FAMILIES:
+            continue
+        p = os.path.join(d, "regression_%s.json" % e["id"])
+        case = {"eco": e["witness"]["eco"], "hex": [s.encode("utf8").hex() for s in e["witness"]["strings"]], "strings": e["witness"]["strings"]}
+        json.dump({"case": case}, open(p, "w"))
+        rc, out = vlib.sh([binp, "-replay", p, "-outdir", d], timeout=120)
+        m = re.search(r"^matrix-json: (.*)$", out, re.M)
+        if rc != 0 or not m:
+            raise RuntimeError("regression replay failed: " + out[-1500:])
+        matrix = json.loads(m.group(1))
+        back = witness_fails(e, matrix)
+        rc2, out2 = vlib.sh(["coqc", "-Q", os.path.join(vlib.COQ, "theories"), "Scalibr", "C07_replay.v"], cwd=d, timeout=600)
+        lists = {n: vlib.parse_printed_list(out2, n) for n in NAMES if n != "in_domain_count"}
+        res.append({"id": e["id"], "fix_commit": e.get("fix_commit"), "defect_back": back, "matrix": matrix})
+        if back:
+            ctx.violation({"kind": "spec-failure", "law": "regression of fixed finding %s (%s): %s" % (e["id"], e.get("fix_commit"), e["what"]),
+                           "case": case, "observed": matrix,
+                           "explanation": "the witness of a defect recorded as fixed misbehaves again on the implementation"})
+        elif rc2 != 0 or any(v is None for v in lists.values()):
+            raise RuntimeError("regression cases file failed: " + out2[-1500:])
+        elif any(lists[n] for n in lists if n.startswith("spec_")):
+            ctx.violation({"kind": "spec-failure", "law": "order laws on the witness of fixed finding " + e["id"], "case": case, "observed": matrix,
+                           "lists": {n: v for n, v in lists.items() if v}})
+        elif any(lists[n] for n in lists if n.startswith("corr_")):
+            ctx.violation({"kind": "correspondence-broken", "correspondence": "regression corpus: witness of fixed finding " + e["id"],
+                           "case": case, "observed_matrix": matrix, "lists": {n: v for n, v in lists.items() if v},
+                           "theorems_no_longer_tied_to_code": FAMILIES[e["family"]]["theorems"]}, nofail=True)
+    return res
+
+
 # ------------------------------------------------------------------ main
 def run(ctx):
     files = coq_files()
@@ -240,9 +286,9 @@ def run(ctx):
         os.remove(f)
     side = os.path.join(d, "cases.jsonl")
     if ctx.tier == "thorough":
-        args = ["-pool", "40", "-extra", "400", "-shards", "8"]
+        args = ["-pool", "48", "-extra", "400", "-rules", "160", "-shards", "8"]
     else:
-        args = ["-pool", "40", "-extra", "150", "-shards", "1"]
+        args = ["-pool", "48", "-extra", "120", "-rules", "64", "-shards", "1"]
     rc, out = vlib.sh([binp, "-outdir", d, "-jsonl", side, "-seed", str(ctx.seed), "-testdata",
                        os.path.join(vlib.REPO, "semantic", "testdata"), "-kinds", ",".join(implemented())] + args, timeout=900)
     if rc != 0:
@@ -252,6 +298,9 @@ def run(ctx):
 
     # known findings first (replayed individually on the implementation)
     props_src = open(os.path.join(vlib.COQ, "theories", PROPS)).read()
+    regress = run_regressions(ctx, binp, d) if pa["ok"] else []
+    ctx.coverage["regression_corpus"] = regress
+    ctx.log("regression corpus: %d fixed findings replayed, %d misbehaving" % (len(regress), sum(1 for r in regress if r["defect_back"])))
     known = replay_known(ctx, binp, d, props_src) if pa["ok"] else []
 
     keys = sorted(shards.keys())
@@ -279,6 +328,10 @@ def run(ctx):
         for (i, j, k) in _pairs(res["spec_trans_bad"], 3):
             spec_fail.append({"law": "transitivity / equality-equivalence on the claimed domain", "case": case_of(sh, [i, j, k]),
                               "observed": {"a_vs_b": observed_cell(sh, i, j), "b_vs_c": observed_cell(sh, j, k), "a_vs_c": observed_cell(sh, i, k)}})
+        for n in res["spec_rules_bad"]:
+            r = sh["rules"][n]
+            spec_fail.append({"law": "agrees with the published ordering rule: " + r["rule"], "case": case_of(sh, [r["i"], r["j"]]),
+                              "observed": {"a_vs_b": r["ij"], "b_vs_a": r["ji"], "published_a_vs_b": r["expect"]}})
         for i in res["corr_parse_bad"]:
             corr_fail.append({"stream": "parse model vs hook structure", "family": fam, "case": case_of(sh, [i]), "hook": sh["strs"][i].get("parse", sh["strs"][i]["pstatus"])})
         for (i, j) in _pairs(res["corr_matrix_bad"], 2):
@@ -294,6 +347,7 @@ def run(ctx):
 
     # ---------------- evidence
     evals = 0
+    rule_hist = {}
     seen = set()
     dist = {}
     samples = []
@@ -318,6 +372,9 @@ def run(ctx):
                 seen.add(vlib.sha([eco, a, b]))
         pool = sh["meta"]["pool"]
         triples += pool ** 3
+        de["canonical_rule_cases"] = de.get("canonical_rule_cases", 0) + len(sh["rules"])
+        for r in sh["rules"]:
+            rule_hist[r["rule"]] = rule_hist.get(r["rule"], 0) + 1
         if len(samples) < 6:
             c = sh["extra"][0] if sh["extra"] else cells[1]
             samples.append({"eco": eco, "a": sh["strs"][c["i"]]["s"], "b": sh["strs"][c["j"]]["s"], "a_vs_b": c["ij"], "b_vs_a": c["ji"],
@@ -337,6 +394,13 @@ def run(ctx):
         "pool_strings_in_claimed_domain": in_dom,
         "input_distribution": dist,
         "cases_files": len(keys),
+        "canonical_rule_cases": sum(rule_hist.values()),
+        "canonical_rule_histogram": rule_hist,
+        "canonical_rule_oracle": "expected signs are fixed GENERATOR-SIDE (harness/cmd/semantic/rules.go) by the way the two strings are "
+                                 "constructed from the ecosystem's published rules (numeric order decided by math/big on freshly drawn 1-40 digit "
+                                 "numbers; documented keyword ladders, separator/spelling/padding equivalences; the documentation's own ordering "
+                                 "chains, every ordered pair) and stored in the case; the Coq side (Cases.rule_ok) only compares the implementation's "
+                                 "answer, both argument orders, with the stored sign. Independent of the model's comparison code.",
         "known_findings_checked": known,
         "explanation": "correspondence on every string (parse) and every pair (compare); order laws evaluated by vm_compute on the "
                        "implementation's own results: reflexivity on every pool string, antisymmetry and no-panic on every pair, "
